@@ -38,6 +38,10 @@ DecBad(ev) ==
            /\ ev.sized[k].ret = want
            /\ (want >= 0 => ev.sized[k].buf = a.out)
      THEN <<>> ELSE <<"caller buffer">>)
+ \o (IF \A k \in 1..Len(ev.huge) :          \* a stated capacity of SIZE_MAX / 2^63 over a buffer that is large enough
+           LET want == DecodeBufRet(ev.kind, s, FALSE, Len(ev.sized) - 1) IN
+           ev.huge[k].ret = want /\ (want >= 0 => ev.huge[k].buf = a.out)
+     THEN <<>> ELSE <<"caller buffer with overstated capacity">>)
 
 RecsOf(ev, names, prop) == [j \in 1..Len(names) |-> [line |-> l, i |-> ev.i, k |-> j, what |-> names[j], props |-> <<prop>>, kf |-> "none"]]
 
